@@ -13,7 +13,7 @@ import copy
 import numpy as np
 import xarray as xr
 
-from common import (RULES, Layout, build_grid, canon_da, dyadic, dyadic_array, enc_arr, enc_grid,
+from common import (RULES, Layout, build_grid, canon_da, dyadic, dyadic_array, enc_arr, enc_grid, fillv,
                     enc_kw, enc_rat, exc_kind, frac, grid_axes_for_driver, parse_res, pos_len, same_arr)
 
 RULE = ("random simple grids (1-3 axes, n in 2..7, thorough ..20, extra dims, any order) x 8 shifts x rule x "
@@ -43,7 +43,7 @@ def gen_case(rng, tier, i):
     else:
         ctor["boundary"] = {a["name"]: rng.choice(RULES) for a in layout.axes}
     if rng.random() < 0.4 and kind != "commute":
-        ctor["fill_value"] = {a["name"]: dyadic(rng) for a in layout.axes}
+        ctor["fill_value"] = {a["name"]: fillv(rng) for a in layout.axes}
     present, dims = [], []
     for a in layout.axes:
         if kind in ("inverse", "cumint"):
@@ -81,9 +81,9 @@ def gen_case(rng, tier, i):
         if kind != "commute":
             r = rng.random()
             if r < 0.4:
-                call["fill_value"] = dyadic(rng)
+                call["fill_value"] = fillv(rng)
             elif r < 0.6:
-                call["fill_value"] = {a["name"]: dyadic(rng) for a in layout.axes if rng.random() < 0.6}
+                call["fill_value"] = {a["name"]: fillv(rng) for a in layout.axes if rng.random() < 0.6}
     metric = None
     if kind == "cumint":
         aname = axis[0]
